@@ -1,7 +1,7 @@
 /-
 C06 line-protocol driver: prints `model <TAB> spec` for each case line.
 
-Elements are integers `10*key + tag` (the tag gives every element an identity, so stability and
+Elements are integers `100*key + tag` (the tag gives every element an identity, so stability and
 "which of two equivalent elements" are observable); comparators, binary and unary predicates look
 at the key only:  cmp = less|dflt, greater, mod3 (key%3);  eq = eq|dflt, eqmod (key%2);  p = bit mask
 over the keys.  `a=[..] f= l=` is the storage and the range in it (context elements have key 7),
@@ -15,7 +15,7 @@ namespace Tetl.C06.Driver
 open Tetl Tetl.Proto
 
 abbrev E := Int
-def key (e : E) : Int := e / 10
+def key (e : E) : Int := e / 100
 def cmpOf (s : String) : E → E → Bool :=
   if s == "greater" then fun x y => key x > key y
   else if s == "mod3" then fun x y => key x % 3 < key y % 3
@@ -62,7 +62,7 @@ def getArgs (ln : Line) : Args :=
   { a := a, f := (ln.nat? "f").getD 0, l := (ln.nat? "l").getD a.length, b := (ln.list? "b").getD [],
     m := (ln.nat? "m").getD 0, d := (ln.nat? "d").getD 0, n := (ln.int? "n").getD 0, v := (ln.int? "v").getD 0,
     w := (ln.int? "w").getD 0, p := (ln.nat? "p").getD 0, cmp := (ln.str? "cmp").getD "dflt",
-    eq := (ln.str? "eq").getD "dflt", it := (ln.str? "it").getD "ptr", ov := (ln.str? "ov").getD "",
+    eq := (ln.str? "eq").getD "dflt", it := (ln.str? "it").getD "ptr", ov := (match ln.get? "ov" with | some (.int i) => toString i | some (.str s) => s | _ => ""),
     op := (ln.str? "op").getD "dflt", init := (ln.int? "init").getD 0 }
 
 /-- canonical form of an unstable sort result: classes in order, the elements as a multiset, the context -/
